@@ -179,10 +179,11 @@ func (t *memTracker) add(points []node.Point, order []int) {
 				if _, ok := w.cells[slot]; ok {
 					w.cells[slot] = append(w.cells[slot], id)
 				} else {
-					if slot-w.start < w.end {
-						t.events++
+					// the end offset of the window only moves forward (before lindb commit 0b8d479 it followed every new
+					// slot and cells behind it got lost; the "window" variation below is inert since then)
+					if slot-w.start > w.end {
+						w.end = slot - w.start
 					}
-					w.end = slot - w.start
 					w.cells[slot] = []string{id}
 				}
 				t.place[id] = fmt.Sprintf("m%d/w%d", t.gen[fk], w.seq)
@@ -572,5 +573,54 @@ func (t *memTracker) altModelHidden(extra map[string]bool, places bool, dropMem 
 		full.Add(points)
 	}
 	m.InheritSchema(full)
+	return m
+}
+
+// snapshotImmutable returns the places (window / compress buffer) of the contributions held by the not yet flushed
+// older generations of a family: what an immutable memory database still holds while its flush is in progress.
+func (t *memTracker) snapshotImmutable(family int64, shard int) map[string]string {
+	out := map[string]string{}
+	for id, pl := range t.place {
+		fk := t.fam[id]
+		if !matchFam(fk, family, shard) || !strings.HasPrefix(pl, "m") || t.dropped[id] {
+			continue
+		}
+		var g int
+		fmt.Sscanf(pl, "m%d/", &g)
+		if g < t.gen[fk] {
+			out[id] = pl
+		}
+	}
+	return out
+}
+
+// altModelDoubleRead: every place is a pseudo series of its own (see altModel) and the contributions in still are
+// read a second time from the places they had in the still attached immutable memory database.
+func (t *memTracker) altModelDoubleRead(still map[string]string) *node.Model {
+	m := t.altModel(false, true, nil)
+	if m == nil || len(still) == 0 {
+		return nil
+	}
+	var extra []node.Point
+	for b, points := range t.batches {
+		for i, p := range points {
+			tagsFor := func(id string) map[string]string {
+				tags := map[string]string{"zz_place": "attached/" + still[id]}
+				for k, v := range p.Tags {
+					tags[k] = v
+				}
+				return tags
+			}
+			for _, f := range p.Fields {
+				if id := contribID(b, i, f.Name); still[id] != "" {
+					extra = append(extra, node.Point{Namespace: p.Namespace, Metric: p.Metric, Tags: tagsFor(id), Timestamp: p.Timestamp, Fields: []node.Field{f}})
+				}
+			}
+			if id := contribID(b, i, "__hist"); p.Histogram != nil && still[id] != "" {
+				extra = append(extra, node.Point{Namespace: p.Namespace, Metric: p.Metric, Tags: tagsFor(id), Timestamp: p.Timestamp, Histogram: p.Histogram})
+			}
+		}
+	}
+	m.Add(extra)
 	return m
 }
